@@ -23,6 +23,113 @@ fn first_line(e: &str) -> String {
     e.lines().next().unwrap_or("").chars().take(200).collect()
 }
 
+/// Features of the ORIGINAL plan that trigger known unparser defects (notes/C38.md); they go into the
+/// signature of a failing case so that known_findings.json only matches failures they explain.
+fn known_triggers(plan: &LogicalPlan) -> Vec<&'static str> {
+    use datafusion_common::JoinType;
+    use datafusion_common::tree_node::{TreeNode, TreeNodeRecursion};
+    use datafusion_expr::Expr;
+    let mut out: Vec<&'static str> = vec![];
+    let mut add = |t: &'static str, out: &mut Vec<&'static str>| {
+        if !out.contains(&t) {
+            out.push(t);
+        }
+    };
+    let mut has_sort = false;
+    let mut agg_over_derived = false;
+    let _ = plan.apply_with_subqueries(|p| {
+        match p {
+            LogicalPlan::Sort(_) => has_sort = true,
+            _ => {}
+        }
+        if let LogicalPlan::Aggregate(a) = p {
+            let mut c: &LogicalPlan = a.input.as_ref();
+            while let LogicalPlan::Filter(f) = c {
+                c = f.input.as_ref();
+            }
+            if let LogicalPlan::SubqueryAlias(sa) = c {
+                if !matches!(sa.input.as_ref(), LogicalPlan::TableScan(_)) {
+                    agg_over_derived = true;
+                }
+            }
+        }
+        match p {
+            LogicalPlan::Join(j) => {
+                if matches!(j.join_type, JoinType::LeftSemi | JoinType::LeftAnti | JoinType::RightSemi | JoinType::RightAnti | JoinType::LeftMark | JoinType::RightMark) {
+                    add("semi-anti-join", &mut out);
+                }
+            }
+            LogicalPlan::Union(u) => {
+                // a set operation directly over another one (`(A UNION B) UNION ALL C`)
+                for i in &u.inputs {
+                    let mut c: &LogicalPlan = i.as_ref();
+                    while let LogicalPlan::Projection(p) = c {
+                        c = p.input.as_ref();
+                    }
+                    if matches!(c, LogicalPlan::Union(_) | LogicalPlan::Distinct(_)) {
+                        add("nested-setop", &mut out);
+                    }
+                }
+            }
+            LogicalPlan::Aggregate(a) => {
+                if a.aggr_expr.iter().any(|e| matches!(e.clone().unalias(), Expr::AggregateFunction(f) if f.params.filter.is_some())) {
+                    add("aggregate-filter", &mut out);
+                }
+                let keys: Vec<String> = a.group_expr.iter().map(|e| format!("{}", e.clone().unalias())).collect();
+                let mut k2 = keys.clone();
+                k2.sort();
+                k2.dedup();
+                if k2.len() != keys.len() {
+                    add("duplicate-group-key", &mut out);
+                }
+                if a.group_expr.iter().any(|e| matches!(e.clone().unalias(), Expr::Literal(..))) {
+                    add("constant-group-key", &mut out);
+                }
+            }
+            _ => {}
+        }
+        for e in p.expressions() {
+            let _ = e.apply(|x| {
+                match x {
+                    Expr::IsNull(a) | Expr::IsNotNull(a) | Expr::IsTrue(a) | Expr::IsFalse(a) | Expr::IsUnknown(a) | Expr::IsNotTrue(a) | Expr::IsNotFalse(a) | Expr::IsNotUnknown(a) => {
+                        if matches!(a.as_ref(), Expr::Not(_)) {
+                            add("is-of-not", &mut out);
+                        }
+                    }
+                    Expr::Negative(a) => match a.as_ref() {
+                        Expr::Negative(_) => add("double-negative", &mut out),
+                        Expr::Literal(v, _) if v.to_string().starts_with('-') => add("double-negative", &mut out),
+                        _ => {}
+                    },
+                    _ => {}
+                }
+                Ok(TreeNodeRecursion::Continue)
+            });
+        }
+        Ok(TreeNodeRecursion::Continue)
+    });
+    if has_sort && agg_over_derived {
+        add("sorted-aggregate-over-derived-table", &mut out);
+    }
+    out
+}
+
+fn err_kind(msg: &str) -> &'static str {
+    if msg.contains("SELECT * with no tables") {
+        "select-star-no-table"
+    } else if msg.contains("No field named") {
+        "unknown-field"
+    } else if msg.contains("Ambiguous reference") || msg.contains("would be ambiguous") {
+        "ambiguous-field"
+    } else if msg.contains("ParserError") {
+        "parse-error"
+    } else if msg.contains("Cannot find column with position") {
+        "bad-ordinal"
+    } else {
+        "other"
+    }
+}
+
 pub fn run(run: &mut Run, args: &Args) {
     hutil::quiet_panics();
     let mut rng0 = Rng::new(args.seed);
@@ -54,7 +161,9 @@ pub fn run(run: &mut Run, args: &Args) {
             variants.push(("opt", p));
         }
         for (vname, plan) in variants {
-            let sig_base = format!("{vname} sql=`{}` data=`{}`", q.sql, ds.describe());
+            let trig = known_triggers(&plan);
+            let trig_s = if trig.is_empty() { "no-known-trigger".to_string() } else { trig.join("+") };
+            let sig_base = format!("[{trig_s}] {vname} sql=`{}` data=`{}`", q.sql, ds.describe());
             let text = match hutil::catch(std::panic::AssertUnwindSafe(|| plan_to_sql(&plan).map(|s| s.to_string()))) {
                 Ok(Ok(t)) => t,
                 Ok(Err(e)) => {
@@ -75,11 +184,17 @@ pub fn run(run: &mut Run, args: &Args) {
             let after = match rtm.block_on(ctx2.state().create_logical_plan(&text)) {
                 Ok(p) => p,
                 Err(e) => {
-                    run.oracle(false, &format!("replan-failed {sig_base}"), &format!("generated SQL `{text}` does not plan: {}", first_line(&e.to_string())));
+                    let msg = e.to_string();
+                    run.oracle(false, &format!("replan-failed:{} {sig_base}", err_kind(&msg)), &format!("generated SQL `{text}` does not plan: {}", first_line(&msg)));
                     continue;
                 }
             };
             let ob = rtm.block_on(rt::run_logical(&ctx, &plan));
+            if matches!(ob, rt::Outcome::Err(_)) {
+                // the original does not return rows: nothing the generated SQL has to reproduce
+                run.count("original_fails");
+                continue;
+            }
             let oa = rtm.block_on(rt::run_logical(&ctx2, &after));
             match rt::same_outcome(&ob, &oa, q.ordered, SchemaLevel::LogicalTypes) {
                 Ok(()) => run.oracle(true, "", ""),
@@ -97,7 +212,7 @@ pub fn run(run: &mut Run, args: &Args) {
             // the Lean judge is asked only when the implementation-level oracle saw no difference
             // (a case that already failed is reported under its own signature)
             if rt::same_outcome(&ob, &oa, q.ordered, SchemaLevel::LogicalTypes).is_ok() {
-                judge_case(run, &plan, &after, &[&ds, &ds2], q.tags.len() >= 2);
+                judge_case(run, &plan, &after, &[&ds], q.tags.len() >= 2);
             } else {
                 run.count("judge_skipped_oracle_failed");
             }
